@@ -94,7 +94,7 @@ def run_one(case, ctx):
                                           f"directory {doid} withheld after a failed file but not in result.failed"))
         # retry completes the destination
         if o.via_push and len(o.push_counts) == 2 and not o.trusting_stale_index:
-            src_has = set(o.bytes) - o.src_removed - (o.corrupted if case["verify"] else set())
+            src_has = set(o.bytes) - o.src_removed - o.vanished - (o.corrupted if case["verify"] else set())
             excused = {doid for doid, kids in o.dir_children.items() if kids - src_has - set(o.dst_final)}
             excused |= o.corrupted if case["verify"] else set()  # rejected by verification on every attempt
             if o.push_counts[1][1] and not (excused & o.requested):
@@ -111,7 +111,7 @@ def run_one(case, ctx):
             if lost and o.push_counts[0][1] == 0:
                 viols.append(Viol("push-failure-unreported", f"uploads of {lost} failed but push() reported 0 failed"))
         if o.retry is not None and not o.trusting_stale_index:
-            src_has = set(o.bytes) - o.src_removed - (o.corrupted if case["verify"] else set())
+            src_has = set(o.bytes) - o.src_removed - o.vanished - (o.corrupted if case["verify"] else set())
             # a directory with a file missing on both sides is legitimately withheld (and reported failed)
             excused = {doid for doid, kids in o.dir_children.items() if kids - src_has - set(o.dst_final)}
             excused |= o.corrupted if case["verify"] else set()  # rejected by verification on every attempt
